@@ -15,7 +15,7 @@
 From Coq Require Import ZArith List Bool.
 From Coq Require Import Floats.SpecFloat.
 From PV Require Import Lib.PyBase Spec.Cal Spec.Zone Spec.TdFloat Model.Duration Model.TzConvert Model.IntervalLen.
-From PV Require Import Proofs.ZoneFacts Proofs.C09Facts Proofs.C05Facts Proofs.FloatRoundTripC05.
+From PV Require Import Proofs.ZoneFacts Proofs.C09Facts Proofs.C05Facts Proofs.FloatRoundTripC05 Proofs.C05Foreign.
 Import ListNotations.
 Open Scope Z_scope.
 
@@ -480,3 +480,27 @@ Theorem model_is_code_neg_of_absolute_interval : forall a b, obj_ok a -> obj_ok 
   glue_Interval___neg___delta (mkgiv a b true) = glue_Interval_new_delta a b true.
 Proof. exact neg_of_absolute_is_not_negated. Qed.
 Print Assumptions model_is_code_neg_of_absolute_interval.
+
+(* ---- foreign tzinfo objects: the class of the tzinfo object an endpoint carries (pendulum Timezone / FixedTimezone, zoneinfo.ZoneInfo, datetime.timezone,
+   a hand-written subclass, dateutil) is irrelevant.  `relabelled a a'` : a' is a with ANOTHER tzinfo object (identity / cached counterpart free) that has the same
+   utcoffset() rules and is None exactly when a's is.  With the same `is` pattern between the two endpoints nothing changes. *)
+Theorem length_independent_of_tzinfo_class : forall a b a' b' absolute, relabelled a a' -> relabelled b b' -> same_tz a' b' = same_tz a b ->
+  interval_new_delta a' b' absolute = interval_new_delta a b absolute.
+Proof. exact new_delta_relabel. Qed.
+Print Assumptions length_independent_of_tzinfo_class.
+
+(* two pendulum DateTimes: native microseconds, in_seconds, in_minutes, in_hours and invert of Interval(a, b, absolute) *)
+Theorem observed_interval_independent_of_tzinfo_class : forall a b a' b' absolute,
+  e_native a = false -> e_native b = false ->
+  relabelled a a' -> relabelled b b' -> same_tz a' b' = same_tz a b ->
+  bind (interval_make a' b' absolute) ival_observe = bind (interval_make a b absolute) ival_observe.
+Proof. exact make_observe_relabel. Qed.
+Print Assumptions observed_interval_independent_of_tzinfo_class.
+
+(* two aware endpoints that share ONE tzinfo object (of any class): the delta is the wall difference CORRECTED by the difference of the two utcoffsets
+   (an endpoint rebuilt without its tzinfo would give the bare wall difference) *)
+Theorem shared_tzinfo_object_delta_corrects_wall_difference : forall a b D, e_dt a = true -> e_dt b = true -> aware a = true -> aware b = true ->
+  same_tz a b = true -> interval_new_delta a b false = Ok D ->
+  D = (e_W b - e_W a) - (( e_W b - inst (e_zone b) (e_W b) (e_fold b)) - (e_W a - inst (e_zone a) (e_W a) (e_fold a))).
+Proof. exact shared_object_delta_is_not_wall_difference. Qed.
+Print Assumptions shared_tzinfo_object_delta_corrects_wall_difference.
